@@ -274,7 +274,7 @@ fn run_case(c: &Case) -> CaseOut {
                 }
             }
             let in_line = format!(
-                "fmt\t{}\t{}\t{}\t{}\t{}\t{}\t{}\t{}\t{}",
+                "fmt\t{}\t{}\t{}\t{}\t{}\t{}\t{}\t{}\t{}\t{}\t{}",
                 c.cfg.to_proto(),
                 proto::hex(c.input.as_bytes()),
                 proto::list(&snap.kinds),
@@ -284,9 +284,17 @@ fn run_case(c: &Case) -> CaseOut {
                 proto::list(&alnum),
                 proto::list(&c.cursors),
                 if c.well_formed { "1" } else { "0" },
+                proto::list(&snap.parser_kinds),
+                proto::lines(&snap.parser_lines),
             );
+            // kinds changed by the consolidators (index:kind), relative to the parser's kinds
+            let ck: Vec<String> = snap.parser_kinds.iter().zip(snap.kinds.iter()).enumerate().filter(|(_, (a, b))| a != b).map(|(i, (_, b))| format!("{}:{}", i, b)).collect();
+            bump(&mut stats, "kinds_changed_by_consolidators", ck.len());
+            bump(&mut stats, "lines_changed_by_consolidators", snap.parser_lines.iter().zip(snap.lines.iter()).filter(|(a, b)| a != b).count());
             let exp_line = format!(
-                "marks={}\tlv={}\tpre={}\tprec={}\tkr=1\twc=1\tnd=1\trx=1\tcur={}\tout={}",
+                "ck={}\tcl={}\tmarks={}\tlv={}\tpre={}\tprec={}\tkr=1\twc=1\tnd=1\trx=1\tcur={}\tout={}",
+                proto::list(&ck),
+                proto::lines(&snap.lines),
                 proto::list(&snap.marks),
                 proto::lines(&snap.lines_voided),
                 proto::fmts(&snap.fmt_pre),
@@ -535,6 +543,63 @@ fn mls_cancel_case(r: &mut Rng) -> (String, Cfg) {
     (input, cfg)
 }
 
+/// `mlsshift` family (C03/C08, finding F33): a statement whose multi-line string is over- or under-indented in the input and is
+/// followed by a tail with commas, with a wrap column next to the width of the closing-quote line before or after the
+/// re-indentation: the first wrapping and the re-wrap after the re-indentation then disagree on where the tail breaks
+/// (tokens that started a line are joined back, or the other way round).
+fn mls_shift_case(r: &mut Rng) -> (String, Cfg) {
+    let mut cfg = Cfg::random(r);
+    cfg.fmt_mls = true;
+    if cfg.tab_width == 0 || cfg.tab_width > 8 {
+        cfg.tab_width = 2;
+    }
+    if cfg.cont > 8 {
+        cfg.cont = 2;
+    }
+    let tail_len = r.range(12, 60);
+    let mut tail = String::from(r.pick_str(&[".Format([", " + Concat(", ".Replace(", ".Trim("]));
+    let mut i = 0;
+    while tail.len() < tail_len {
+        if i > 0 {
+            tail.push_str(", ");
+        }
+        tail.push_str(r.pick_str(&["aaaaaaaa", "bbbbbbbb", "cccc", "Another", "F(Argument1, Argument2)", "X", "1"]));
+        i += 1;
+    }
+    tail.push_str(if tail.starts_with(".Format") { "]);" } else { ");" });
+    let ctx = r.range(0, 3);
+    let build = |pad: usize| -> String {
+        let pad = " ".repeat(pad);
+        let (pre, post) = match ctx {
+            0 => ("begin\n  X :=".to_string(), "end;\n".to_string()),
+            1 => ("procedure Foo;\nbegin\n  if A then\n  begin\n    X :=".to_string(), "  end;\nend;\n".to_string()),
+            2 => ("begin\n  Foo(procedure begin\n  X :=".to_string(), "end);\nend;\n".to_string()),
+            _ => ("begin\n  if A then X :=".to_string(), "end;\n".to_string()),
+        };
+        format!("{pre} '''\n{pad}abc\n{pad}'''{tail}\n{post}")
+    };
+    let mut wide = cfg.clone();
+    wide.wrap_column = 400;
+    let probe = build(8);
+    let out = std::panic::catch_unwind(|| stages::run_real(&probe, &wide, &[]).0).ok().map(|o| String::from_utf8_lossy(&o).to_string()).unwrap_or_default();
+    let unit = if cfg.use_tabs { 1 } else { 1 };
+    let f = out.lines().find(|l| l.trim_start().starts_with("'''") && l.contains(&tail[..5])).map(|l| (l.len() - l.trim_start().len()) * unit);
+    let f = match f {
+        Some(f) => f,
+        None => return (probe, cfg),
+    };
+    // final width of the closing-quote line in columns (tabs count one byte each in the wrapper's measure)
+    let new_width = f + 3 + tail.len();
+    let delta = r.range(1, 40);
+    let over = r.chance(2, 3) || f < delta;
+    let pad = if over { f + delta } else { f - delta };
+    let old_width = pad + 3 + tail.len();
+    let base = if r.chance(1, 2) { new_width } else { old_width };
+    let w = (base as i64 + r.range(0, 4) as i64 - 2).max(1) as u32;
+    cfg.wrap_column = w;
+    (build(pad), cfg)
+}
+
 fn gen_inputs(family: &str, rng: &mut Rng, n: usize, seeds: &[String]) -> Vec<String> {
     let mut v = Vec::with_capacity(n);
     match family {
@@ -620,6 +685,11 @@ fn gen_inputs(family: &str, rng: &mut Rng, n: usize, seeds: &[String]) -> Vec<St
         "directives" => {
             for _ in 0..n {
                 v.push(directive_heavy(rng));
+            }
+        }
+        "dirsoup" => {
+            for _ in 0..n {
+                v.push(directive_soup(rng));
             }
         }
         "pairs" => {
@@ -857,6 +927,14 @@ fn cmd_emit(a: &Args) {
             let mut r = rng.fork();
             for _ in 0..per {
                 let (input, cfg) = mls_cancel_case(&mut r);
+                cases.push(Case { stream: stream.clone(), family: fam.clone(), input, cfg, cursors: vec![], oracles: oracle_list.clone(), well_formed: true, w2: 200, input2: None, marks: vec![], texts: vec![] });
+            }
+            continue;
+        }
+        if fam == "mlsshift" {
+            let mut r = rng.fork();
+            for _ in 0..per {
+                let (input, cfg) = mls_shift_case(&mut r);
                 cases.push(Case { stream: stream.clone(), family: fam.clone(), input, cfg, cursors: vec![], oracles: oracle_list.clone(), well_formed: true, w2: 200, input2: None, marks: vec![], texts: vec![] });
             }
             continue;
